@@ -70,7 +70,8 @@ CHECKS["C12"] = (
     "ToBoltListener, typer and evaluator inside the executor. Per program the solver decides equality with the formula the text was printed from for every "
     "truth assignment / field value.",
     BASE_NOTE + "The program dimension is enumerated, not symbolic (ANTLR's ATN interpreter is not encodable). `not (P)` directly left of a connective is "
-    "not exercised (meaning not fixed by the statement). Known finding KF-C12-and-or-precedence (not repaired: needs the ANTLR tool).",
+    "now exercised as an ordinary operand (`not (P) and Q` = (not P) and Q). The precedence defect found here (KF-C12-and-or-precedence) is repaired in /repo e3d2e3a "
+    "(listener level; the grammar cannot be regenerated without the ANTLR tool).",
     "6/C12")
 
 CHECKS["C02"] = (
